@@ -135,6 +135,7 @@ fn nested_doc_for(v: &[Tri]) -> Yaml {
 
 pub fn run_c06(ctx: &mut Ctx, _known: &Known) {
     ctx.exhaustive = true;
+    c06_same_field(ctx);
     let masks = vec![0u64, 15];
     for k in 1..=4usize {
         let vs = vectors(k);
@@ -317,6 +318,60 @@ pub fn run_c06(ctx: &mut Ctx, _known: &Known) {
     }
 }
 
+/// (e) Operands that all read ONE field and are told apart only by the str() cast and the pattern:
+/// on `{f: 7}`, `str(f): '7*'` is true, `str(f): '5*'` is false and the uncast `f: '5*'` is missing.
+/// A rewrite that treats predicates on one field as interchangeable shows here.
+fn c06_same_field(ctx: &mut Ctx) {
+    let body = |t: Tri| -> Yaml {
+        match t {
+            Tri::T => map1("str(f)", ys("7*")),
+            Tri::F => map1("str(f)", ys("5*")),
+            Tri::M => map1("f", ys("5*")),
+        }
+    };
+    let doc = map1("f", Yaml::Number(7u64.into()));
+    let n = |x: Tri| t_not(x);
+    let forms: Vec<(usize, &str, Box<dyn Fn(&[Tri]) -> Tri>)> = vec![
+        (2, "not P0 and not P1", Box::new(move |v| t_and(&[n(v[0]), n(v[1])]))),
+        (2, "not P0 or not P1", Box::new(move |v| t_or(&[n(v[0]), n(v[1])]))),
+        (2, "not (P0 or P1)", Box::new(move |v| n(t_or(&v[0..2])))),
+        (2, "not (P0 and P1)", Box::new(move |v| n(t_and(&v[0..2])))),
+        (2, "P0 and not P1", Box::new(move |v| t_and(&[v[0], n(v[1])]))),
+        (2, "P0 or P1", Box::new(|v| t_or(&v[0..2]))),
+        (2, "P0 and P1", Box::new(|v| t_and(&v[0..2]))),
+        (3, "not P0 and not P1 and not P2", Box::new(move |v| t_and(&[t_and(&[n(v[0]), n(v[1])]), n(v[2])]))),
+        (3, "P2 and not P0 and not P1", Box::new(move |v| t_and(&[t_and(&[v[2], n(v[0])]), n(v[1])]))),
+        (3, "not P0 and not P1 and P2", Box::new(move |v| t_and(&[t_and(&[n(v[0]), n(v[1])]), v[2]]))),
+        (3, "not P0 or not P1 or not P2", Box::new(move |v| t_or(&[t_or(&[n(v[0]), n(v[1])]), n(v[2])]))),
+    ];
+    for (k, cond, table) in forms {
+        for v in vectors(k) {
+            let mut det: Vec<(String, Yaml)> = (0..k).map(|i| (format!("P{}", i), body(v[i]))).collect();
+            det.push(("condition".into(), ys(cond)));
+            let c = case(det, vec![doc.clone()], vec![0, 15, 2, 3]);
+            let (ex, parsed) = run_rule_case(ctx, &c, false);
+            let ry = rule_yaml(&c);
+            let p = match parsed {
+                Some(p) if p.load == "ok" => p,
+                _ => continue,
+            };
+            ctx.nontrivial.insert(hash_str(&format!("same-field {} {:?}", cond, v)));
+            let want = table(&v);
+            for m in &p.masks {
+                if m.mask != 0 && ex.agree {
+                    continue;
+                }
+                let got = m.res[0].0.as_str();
+                let ok = if m.mask == 0 { got == want.name() } else { (got == "T") == (want.name() == "T") };
+                if !ok {
+                    ctx.violation("oracle", &format!("condition `{}` over one field, operands {:?} (mask {}): engine gives {}, truth table gives {}", cond, v, m.mask, got, want.name()), &ex, &ry, true);
+                    break;
+                }
+            }
+        }
+    }
+}
+
 fn with_cond(ids: &[(String, Yaml)], cond: &str) -> Vec<(String, Yaml)> {
     let mut d = ids.to_vec();
     d.push(("condition".into(), ys(cond)));
@@ -442,6 +497,16 @@ pub fn run_c05(ctx: &mut Ctx, _known: &Known) {
             ("Q0 and (Q1 or Q2 or Q3) and Q4", Box::new(|v: &[Tri]| t_and(&[t_and(&[v[0], t_or(&v[1..4])]), v[4]]))),
             ("Q0 or (Q1 and Q2 and Q3) or Q4", Box::new(|v: &[Tri]| t_or(&[t_or(&[v[0], t_and(&v[1..4])]), v[4]]))),
             ("not ((Q0 or Q1 or Q2) and (Q3 or Q4 or Q5))", Box::new(|v: &[Tri]| t_not(t_and(&[t_or(&v[0..3]), t_or(&v[3..6])])))),
+            // `not` reaches exactly one operand, in the optimised rule too
+            ("not Q0 and not Q1", Box::new(|v: &[Tri]| t_and(&[t_not(v[0]), t_not(v[1])]))),
+            ("not Q0 and not Q1 and Q2", Box::new(|v: &[Tri]| t_and(&[t_and(&[t_not(v[0]), t_not(v[1])]), v[2]]))),
+            ("Q2 and (not Q0 and not Q1)", Box::new(|v: &[Tri]| t_and(&[v[2], t_and(&[t_not(v[0]), t_not(v[1])])]))),
+            ("Q2 and not Q0 and not Q1", Box::new(|v: &[Tri]| t_and(&[t_and(&[v[2], t_not(v[0])]), t_not(v[1])]))),
+            ("not Q0 or not Q1", Box::new(|v: &[Tri]| t_or(&[t_not(v[0]), t_not(v[1])]))),
+            ("not Q0 or not Q1 or Q2", Box::new(|v: &[Tri]| t_or(&[t_or(&[t_not(v[0]), t_not(v[1])]), v[2]]))),
+            ("not (Q0 or Q1) and Q2", Box::new(|v: &[Tri]| t_and(&[t_not(t_or(&v[0..2])), v[2]]))),
+            ("not (Q0 and Q1) or Q2", Box::new(|v: &[Tri]| t_or(&[t_not(t_and(&v[0..2])), v[2]]))),
+            ("not Q0 and (not Q1 or not Q2)", Box::new(|v: &[Tri]| t_and(&[t_not(v[0]), t_or(&[t_not(v[1]), t_not(v[2])])]))),
         ];
         for (text, table) in forms {
             let mut det = ids6.clone();
@@ -627,6 +692,17 @@ pub fn run_c07(ctx: &mut Ctx, _known: &Known) {
                 string_case(ctx, vec![format!("{}{}", pre, p)], &q_docs, &q_hays, &masks);
                 string_case(ctx, vec![format!("{}{}", pre, p), "zq".to_string()], &q_docs, &q_hays, &masks);
             }
+        }
+    }
+    // only a lower-case `i` is the case flag: a pattern that begins with a capital I, or with
+    // another letter followed by the flag letter, is plain text
+    {
+        let i_hays: Vec<String> = vec!["Ia", "a", "A", "ia", "I", "IA", "ii", "xIa", "I?a", "Iab", "ab", "", "i", "?a", "Ia*"].into_iter().map(|s| s.to_string()).collect();
+        let i_docs: Vec<Yaml> = i_hays.iter().map(|h| map1("f", ys(h))).collect();
+        for p in ["Ia", "I*", "Ia*", "*Ia", "*I*", "I?a", "I", "IA", "II", "I\"a\"", "Ii", "iI", "iIa*", "ai", "a*i", "I?^a"] {
+            string_case(ctx, vec![p.to_string()], &i_docs, &i_hays, &masks);
+            string_case(ctx, vec![p.to_string(), "zq".to_string()], &i_docs, &i_hays, &masks);
+            string_case(ctx, vec![p.to_string(), "izq*".to_string(), "?^zz".to_string()], &i_docs, &i_hays, &masks);
         }
     }
     // lists of two (all pairs in thorough; a deterministic slice in quick), three and four
@@ -855,6 +931,70 @@ pub fn run_c09(ctx: &mut Ctx, _known: &Known) {
                             if cnt != 1 || !unions {
                                 let dummy = ctx.exchange("tok s:");
                                 ctx.violation("oracle", &format!("trichotomy/union fails for constant {} and f = {:?}: < {} = {} > {} >= {} <= {}", c, fv, lt[j], eq[j], gt[j], ge[j], le[j]), &dummy, "", true);
+                            }
+                        }
+                    }
+                }
+            }
+        }
+    }
+    // (1b) the cast written on the KEY: `flt(f): '>=c'` / `int(f): c` with integer constants up to the
+    //      ends of the 64-bit range (not all of them are doubles). True only if the relation holds
+    //      between the cast field value and the constant AS WRITTEN.
+    {
+        let big_consts = ["5", "9007199254740993", "4611686018427387905", "9223372036854775807", "-9223372036854775807", "-9007199254740993"];
+        let mut vals: Vec<Yaml> = vec![
+            Yaml::Number(5u64.into()), Yaml::Number(5.0f64.into()), ys("5"), ys("5.0"),
+            Yaml::Number(9007199254740992u64.into()), Yaml::Number(9007199254740993u64.into()), Yaml::Number(9007199254740994u64.into()),
+            Yaml::Number(9007199254740992.0f64.into()), ys("9007199254740992"), ys("9007199254740992.0"),
+            Yaml::Number(4611686018427387904u64.into()), Yaml::Number(4611686018427387904.0f64.into()),
+            Yaml::Number(9223372036854775807u64.into()), Yaml::Number(9223372036854775808u64.into()), Yaml::Number(9223372036854775808.0f64.into()),
+            Yaml::Number(i64::MIN.into()), Yaml::Number((-9223372036854775808.0f64).into()), Yaml::Number((-9007199254740992i64).into()), Yaml::Number((-9007199254740992.0f64).into()),
+            Yaml::Bool(true), ys("abc"),
+        ];
+        vals.extend(field_vals.iter().take(24).cloned());
+        let kdocs: Vec<Yaml> = vals.iter().map(|v| map1("f", v.clone())).collect();
+        // the field value after the cast, as an exact number (None: not convertible)
+        let cast_val = |kind: &str, v: &Yaml| -> Option<NumV> {
+            match (kind, v) {
+                ("flt", Yaml::Number(n)) => n.as_f64().map(NumV::F).or_else(|| n.as_u64().map(|u| NumV::F(u as f64))),
+                ("flt", Yaml::String(s)) => s.parse::<f64>().ok().map(NumV::F),
+                ("flt", Yaml::Bool(b)) => Some(NumV::F(*b as u8 as f64)),
+                ("int", Yaml::Number(n)) if n.is_u64() => { let u = n.as_u64().unwrap(); if u <= i64::MAX as u64 { Some(NumV::I(u as i128)) } else { None } }
+                ("int", Yaml::Number(n)) if n.is_i64() => Some(NumV::I(n.as_i64().unwrap() as i128)),
+                ("int", Yaml::Number(n)) => { let x = n.as_f64().unwrap().round(); if x.is_finite() && x >= -9223372036854775808.0 && x < 9223372036854775808.0 { Some(NumV::I(x as i128)) } else { None } }
+                ("int", Yaml::String(s)) => s.parse::<i64>().ok().map(|v| NumV::I(v as i128)),
+                ("int", Yaml::Bool(b)) => Some(NumV::I(*b as i128)),
+                _ => None,
+            }
+        };
+        for kind in ["flt", "int"] {
+            for c in big_consts {
+                let cv = NumV::I(c.parse::<i128>().unwrap());
+                for op in ["", "=", ">", ">=", "<", "<="] {
+                    let val = if op.is_empty() { Yaml::Number(if c.starts_with('-') { c.parse::<i64>().unwrap().into() } else { c.parse::<u64>().unwrap().into() }) } else { ys(&format!("{}{}", op, c)) };
+                    let cs = case(vec![("A".into(), map1(&format!("{}(f)", kind), val)), ("condition".into(), ys("A"))], kdocs.clone(), masks.clone());
+                    let (ex, parsed) = run_rule_case(ctx, &cs, false);
+                    let ry = rule_yaml(&cs);
+                    let p = match parsed {
+                        Some(p) if p.load == "ok" => p,
+                        _ => continue,
+                    };
+                    for mask in [0u64, 15] {
+                        let res = tri_of(&p, mask);
+                        for (j, fv) in vals.iter().enumerate() {
+                            ctx.nontrivial.insert(hash_str(&format!("key {}{}{}{:?}", kind, op, c, fv)));
+                            if res[j] != "T" {
+                                continue;
+                            }
+                            let rel = if op.is_empty() { "=" } else { op };
+                            let truth = match cast_val(kind, fv) {
+                                Some(x) => holds(rel, cmp_exact(&x, &cv)),
+                                None => false,
+                            };
+                            if !truth {
+                                ctx.violation("oracle", &format!("`{}(f): {}{}` (mask {}) is true for f = {:?} although the relation does not hold for the cast value", kind, op, c, mask, fv), &ex, &ry, true);
+                                break;
                             }
                         }
                     }
@@ -1459,6 +1599,49 @@ pub fn run_c10(ctx: &mut Ctx, _known: &Known) {
             }
         }
     }
+    // inner keys of a nested mapping are paths too: an index suffix (and a dotted inner key) is
+    // resolved on the nested object exactly as the dotted top-level key resolves it, and is never
+    // taken from a field whose NAME happens to be that text
+    {
+        let lit = |k: &str, v: Yaml| -> Yaml { map1(k, v) };
+        let docs_i: Vec<Yaml> = vec![
+            map1("o", lit("k", Yaml::Sequence(vec![ys("w"), ys("x")]))),
+            map1("o", mapn(vec![("k".into(), Yaml::Sequence(vec![ys("y"), ys("z")])), ("k[1]".into(), ys("x"))])),
+            map1("o", lit("k[1]", ys("x"))),
+            map1("o", lit("k", ys("x"))),
+            map1("o", lit("k", Yaml::Sequence(vec![ys("x")]))),
+            map1("o", lit("k", Yaml::Sequence(vec![map1("q", ys("x")), map1("q", ys("w"))]))),
+            map1("o", mapn(vec![("k".into(), map1("q", ys("w"))), ("k.q".into(), ys("x"))])),
+            map1("o", lit("k", map1("q", ys("x")))),
+            map1("o", Yaml::Sequence(vec![lit("k", Yaml::Sequence(vec![ys("w"), ys("x")])), lit("k[1]", ys("x"))])),
+            mapn(vec![("o".into(), lit("k", Yaml::Sequence(vec![ys("w"), ys("y")]))), ("o.k[1]".into(), ys("x"))]),
+        ];
+        for (inner, dotted) in [("k[1]", "o.k[1]"), ("k[0]", "o.k[0]"), ("k.q", "o.k.q"), ("k[0].q", "o.k[0].q"), ("k", "o.k")] {
+            for masks in [vec![0u64], vec![15u64]] {
+                let c1 = case(vec![("A".into(), map1("o", map1(inner, ys("x")))), ("condition".into(), ys("A"))], docs_i.clone(), masks.clone());
+                let c2 = case(vec![("A".into(), map1(dotted, ys("x"))), ("condition".into(), ys("A"))], docs_i.clone(), masks.clone());
+                let (ex1, p1) = run_rule_case(ctx, &c1, false);
+                let (_ex2, p2) = run_rule_case(ctx, &c2, false);
+                if let (Some(p1), Some(p2)) = (p1, p2) {
+                    if p1.load != "ok" || p2.load != "ok" {
+                        continue;
+                    }
+                    let (r1, r2) = (tri_of(&p1, masks[0]), tri_of(&p2, masks[0]));
+                    for (j, d) in docs_i.iter().enumerate() {
+                        // where `o` is an object the two spellings address the same value
+                        if !matches!(d.as_mapping().and_then(|m| m.get(ys("o"))), Some(Yaml::Mapping(_))) {
+                            continue;
+                        }
+                        ctx.nontrivial.insert(hash_str(&format!("inneridx{}{}{}", inner, masks[0], j)));
+                        if (r1[j] == "T") != (r2[j] == "T") {
+                            let ry = rule_yaml(&c1);
+                            ctx.violation("oracle", &format!("nested `o: {{{}: x}}` and dotted `{}: x` disagree ({} vs {}, mask {}) on document {}", inner, dotted, r1[j], r2[j], masks[0], serde_yaml::to_string(d).unwrap_or_default().replace('\n', " ")), &ex1, &ry, true);
+                        }
+                    }
+                }
+            }
+        }
+    }
     // multi-level nested mappings: arrays of objects at intermediate levels, every switch mask
     let k3 = budget(ctx, 150, 3000);
     for i in 0..k3 {
@@ -1562,7 +1745,95 @@ fn permutations<T: Clone>(xs: &[T]) -> Vec<Vec<T>> {
     out
 }
 
+/// Deterministic part: (a) chains whose operands include negations, every order, every operand
+/// vector, plain and optimised; (b) all()/of() over a sequence of multi-key mappings, every order of
+/// the sequence, every switch family (with and without coalesce), documents lacking some fields.
+fn c17_fixed(ctx: &mut Ctx) {
+    // (a)
+    let ids: Vec<(String, Yaml)> = (0..4).map(|i| (format!("P{}", i), map1(&format!("f{}", i), ys("x")))).collect();
+    for (units, joiner) in [
+        (vec!["not P0", "not P1", "P2"], " and "), (vec!["not P0", "not P1", "P2"], " or "),
+        (vec!["not P0", "not P1", "not P2"], " and "), (vec!["not P0", "P1", "P2"], " and "),
+        (vec!["not P0", "not P1", "P2", "P3"], " and "), (vec!["not P0", "not P1", "P2", "not P3"], " or "),
+        (vec!["not P0", "not P1"], " and "),
+    ] {
+        let k = units.iter().map(|u| u.trim_start_matches("not ").trim_start_matches('P').parse::<usize>().unwrap()).max().unwrap() + 1;
+        let vs = vectors(k);
+        let docs: Vec<Yaml> = vs.iter().map(|v| doc_for(v)).collect();
+        let mut base: Option<Vec<Vec<bool>>> = None;
+        for perm in permutations(&(0..units.len()).collect::<Vec<_>>()) {
+            let cond = perm.iter().map(|&j| units[j]).collect::<Vec<_>>().join(joiner);
+            let mut det = ids[..k].to_vec();
+            det.push(("condition".into(), ys(&cond)));
+            let c = case(det, docs.clone(), vec![0, 15, 2, 3]);
+            let (ex, parsed) = run_rule_case(ctx, &c, false);
+            let p = match parsed {
+                Some(p) if p.load == "ok" => p,
+                _ => break,
+            };
+            ctx.nontrivial.insert(hash_str(&cond));
+            let got: Vec<Vec<bool>> = [0u64, 15, 2, 3].iter().map(|m| tri_of(&p, *m).iter().map(|t| t == "T").collect()).collect();
+            match &base {
+                None => base = Some(got),
+                Some(b) => {
+                    if *b != got {
+                        let which = (0..4).find(|i| b[*i] != got[*i]).unwrap_or(0);
+                        let j = (0..vs.len()).find(|j| b[which][*j] != got[which][*j]).unwrap_or(0);
+                        ctx.violation("oracle", &format!("reordering the operands of `{}` changes whether it is true (mask {}, operand results {:?})", cond, [0, 15, 2, 3][which], vs[j]), &ex, &rule_yaml(&c), true);
+                        break;
+                    }
+                }
+            }
+        }
+    }
+    // (b)
+    let rows: Vec<Vec<(&str, &str)>> = vec![
+        vec![("user", "root"), ("host", "alpha")],
+        vec![("user", "admin"), ("shell", "bash")],
+        vec![("host", "beta"), ("shell", "zsh")],
+    ];
+    let mut docs: Vec<Yaml> = vec![];
+    for u in ["root", "admin", ""] {
+        for h in ["alpha", "beta", ""] {
+            for sh in ["bash", "zsh", ""] {
+                let mut m = Mapping::new();
+                if !u.is_empty() { m.insert(ys("user"), ys(u)); }
+                if !h.is_empty() { m.insert(ys("host"), ys(h)); }
+                if !sh.is_empty() { m.insert(ys("shell"), ys(sh)); }
+                docs.push(Yaml::Mapping(m));
+            }
+        }
+    }
+    for nrows in [2usize, 3] {
+        for cond in ["A", "all(A)", "of(A, 1)", "of(A, 2)", "of(A, 3)"] {
+            let mut base: Option<Vec<Vec<bool>>> = None;
+            for perm in permutations(&(0..nrows).collect::<Vec<_>>()) {
+                let seq: Vec<Yaml> = perm.iter().map(|&j| mapn(rows[j].iter().map(|(k, v)| (k.to_string(), ys(v))).collect())).collect();
+                let c = case(vec![("A".into(), Yaml::Sequence(seq)), ("condition".into(), ys(cond))], docs.clone(), vec![0, 15, 14, 10, 8]);
+                let (ex, parsed) = run_rule_case(ctx, &c, false);
+                let p = match parsed {
+                    Some(p) if p.load == "ok" => p,
+                    _ => break,
+                };
+                ctx.nontrivial.insert(hash_str(&ex.line));
+                let got: Vec<Vec<bool>> = [0u64, 15, 14, 10, 8].iter().map(|m| tri_of(&p, *m).iter().map(|t| t == "T").collect()).collect();
+                match &base {
+                    None => base = Some(got),
+                    Some(b) => {
+                        if *b != got {
+                            let which = (0..5).find(|i| b[*i] != got[*i]).unwrap_or(0);
+                            ctx.violation("oracle", &format!("reordering the entries of the sequence under `{}` changes a verdict (mask {})", cond, [0, 15, 14, 10, 8][which]), &ex, &rule_yaml(&c), true);
+                            break;
+                        }
+                    }
+                }
+            }
+        }
+    }
+}
+
 pub fn run_c17(ctx: &mut Ctx, _known: &Known) {
+    c17_fixed(ctx);
     let n = budget(ctx, 250, 6000);
     let masks = vec![0u64, 15];
     for i in 0..n {
